@@ -40,7 +40,7 @@ EXPECTED_PROBES = ["writer_to_parquet", "writer_pack", "ge_11_partitions", "read
                    "box_covers_total_extent", "read_list_with_dataset_lacking_bounds",
                    "read_glob", "bounds_kw", "geometry_kw", "box_touches_partition_extent",
                    "box_disjoint_from_all", "partition_with_undefined_extent", "pruned_some",
-                   "second_generation_over_first",
+                   "second_generation_over_first", "written_after_partition_bounds_cached",
                    "end_to_end_cx"]
 
 
@@ -87,6 +87,8 @@ def cases(tier, base_seed):
             # concurrent concat tasks of the pack writer under line-level pre-emption
             sim.update({"fine": True, "workers": rng.choice((2, 4, 8)),
                         "strategy": rng.choice(("random", "pct"))})
+        for w in writes:
+            w["warm"] = rng.random() < 0.3
         yield {"seed": seed, "frame": spec, "writes": writes, "reads": reads, "rewrite": rewrite,
                "plain": plain, "regen": regen, "loose_rings": bool(loose), "sim": sim, "store": e1.gen_store_cfg(rng)}
         i += 1
@@ -191,6 +193,11 @@ def _generation(case, spec, base, fs, probes, sig, generation):
         if w["nparts"] >= 11:
             probes["ge_11_partitions"] = 1
         ddf = e3.make_ddf(gdf, {"mode": "even", "k": max(1, min(w["nparts"], len(gdf)))})
+        if w.get("warm"):
+            # the frame was queried before it is written: partition bounds of its active
+            # column (only) are already cached on it
+            _guard("partition_sindex before writing", lambda: ddf.partition_sindex, sig)
+            probes["written_after_partition_bounds_cached"] = 1
         if w["writer"] == "to_parquet":
             _guard("to_parquet", lambda: ddf.to_parquet("simfs://" + path, **over), sig)
         else:
